@@ -147,12 +147,34 @@ fn lower_attributes(list: Option<cst::AttributeList>) -> Vec<ast::Attribute> {
                 let syntax = attr.syntax();
                 ast::Attribute {
                     ast: MySyntaxNodePtr::new(syntax),
-                    text: syntax.text().to_string(),
+                    text: attribute_text(syntax),
                 }
             })
             .collect()
     })
     .unwrap_or_default()
+}
+
+/// The attribute as its tokens spell it. Whitespace and comments inside the node (the node also
+/// owns the trivia that follows the closing bracket) are not part of what the attribute says.
+fn attribute_text(syntax: &parser::syntax::MySyntaxNode) -> String {
+    let mut text = String::new();
+    for token in syntax
+        .descendants_with_tokens()
+        .filter_map(|element| element.into_token())
+    {
+        if matches!(
+            token.kind(),
+            MySyntaxKind::Whitespace | MySyntaxKind::Comment
+        ) {
+            continue;
+        }
+        text.push_str(token.text());
+        if token.kind() == MySyntaxKind::Comma {
+            text.push(' ');
+        }
+    }
+    text
 }
 
 fn attribute_path(attr: &ast::Attribute) -> Option<&str> {
